@@ -295,7 +295,10 @@ where
     R: Read,
 {
     fn read(&mut self, buf: &mut [u8]) -> std::io::Result<usize> {
-        if self.buffer.is_empty() {
+        // (a PDU may carry no data at all without being the last one:
+        // keep receiving until there is something to hand out,
+        // because returning `Ok(0)` means the end of the P-Data stream)
+        while self.buffer.is_empty() {
             if self.last_pdu {
                 // reached the end of PData stream
                 return Ok(0);
@@ -690,7 +693,10 @@ pub mod non_blocking {
             cx: &mut Context<'_>,
             buf: &mut ReadBuf,
         ) -> Poll<std::io::Result<()>> {
-            if self.buffer.is_empty() {
+            // (a PDU may carry no data at all without being the last one:
+            // keep receiving until there is something to hand out,
+            // because reading nothing means the end of the P-Data stream)
+            while self.buffer.is_empty() {
                 if self.last_pdu {
                     return Poll::Ready(Ok(()));
                 }
